@@ -14,8 +14,8 @@ import Ebv.Generated.Consts
   low bytes at `r10 + key_offset + rel` / `r0 + rel`.
 * The kernel hash map is the finite map `List (bytes × bytes)` with the helper semantics
   `lookup / update / delete` (`Assoc`), shared by both sides.
-* `cStep`: what every `TheDict` operation does, as the code is (in particular `pop` issues a plain
-  lookup: `_lookup_elem` ignores its `cmd` argument; iterating an empty Dict dies with `RuntimeError`).
+* `cStep`: what every `TheDict` operation does, as the code is (in particular iterating an empty Dict
+  dies with `RuntimeError`: `StopIteration` of the first `get_next_key` inside the generator).
 * `aStep`: the abstract dictionary over member tuples the property speaks about.
 * hash variables: 1-byte ordinal key, 8-byte cell, `HashMap.load` defaults, both sides' get/set. -/
 namespace Ebv.HashVars
@@ -76,11 +76,6 @@ def localDepth (d : Nat) (f : Fmt) : Nat := (d + f.size + (f.size - 1)) / f.size
 
 /-- `-owner.stack` after the local variables declared before the Dict -/
 def localsDepth (fs : List Fmt) : Nat := fs.foldl localDepth 0
-
-/-- `TheDict.update/lookup` wrap the helper call in `save_registers([1..5])`: an owned `r1` is kept in the
-lowest free register, which is `r0` unless `r0` is owned; the call clobbers it and `r0` is released at
-the end, so the following `r0 != 0` is refused (`AssembleError: register r0 has no value`). -/
-def dictCallAssembles (r0Owned r1Owned : Bool) : Bool := r0Owned || !r1Owned
 
 structure DictDecl where
   keyFmts : List Fmt
@@ -219,12 +214,12 @@ def cStep (D : DictDecl) (stack0 : Bytes) (m : KMap) : Op → KMap × Out
       match lookup m kb with
       | some _ => (erase m kb, .ok)
       | none => (m, .keyError)
-  | .pyPop k =>      -- `lookup_and_delete_elem` → `_lookup_elem(21, …)` → `bpf(1, …)`: nothing is deleted
+  | .pyPop k =>      -- `lookup_and_delete_elem` issues the regenerated command `dict_pop_cmd`
     match pyStruct D.keyFmts k with
     | none => (m, .structError)
     | some kb =>
       match lookup m kb with
-      | some vb => (m, .value (readMembers 0 D.valFmts vb))
+      | some vb => (if dict_pop_cmd = bpf_LOOKUP_DELETE then erase m kb else m, .value (readMembers 0 D.valFmts vb))
       | none => (m, .keyError)
   | .pyIter =>       -- the first `get_next_key` raises `StopIteration` inside the generator when the map is empty
     if m.isEmpty then (m, .runtimeError) else (m, .keys (m.map fun e => readMembers 0 D.keyFmts e.1))
